@@ -179,6 +179,7 @@ Definition check_flight decl n callers scr wn obs_done obs_log maxconc (a_secret
           && forallb (res_ok callers) (done s)
           && list_beq mark_beq (log s) obs_log
           && alternates false obs_log
+          && forallb (end_ok callers) obs_log      (* no request outlives the context of the caller it was made for *)
           && (maxconc <=? 1)
           && Bool.eqb (known st n) a_secret
           && Bool.eqb (in_names n (map fst (requests (snapshot st 0%Z)))) a_polled
